@@ -82,7 +82,7 @@ def _text(arr, where):
     return flat.reshape(a.shape)
 
 
-def corrupt(fault, sol, obj, meas, extras, layout, single, dt="f64"):
+def corrupt(fault, sol, obj, meas, extras, layout, single, dt="f64", mdt=None):
     """Apply the single malformation to the batch-form arguments.
 
     Returns (sol, obj, meas, extras) in the form the entry point takes (rows for the
@@ -91,7 +91,7 @@ def corrupt(fault, sol, obj, meas, extras, layout, single, dt="f64"):
     arg, kind, pos = fault["arg"], fault["kind"], fault["pos"]
     # "overflow": finite in float64 but not in a float32 archive (only a malformation there)
     bad = {"nan": np.nan, "inf": np.inf, "ninf": -np.inf, "overflow": 1e39 if pos % 2 else -1e39}
-    if kind == "overflow" and dt != "f32":
+    if kind == "overflow" and (mdt or dt if arg == "measures" else dt) != "f32":
         return None
     if single:
         s1, o1, m1 = sol[0], obj[0], meas[0]
@@ -212,19 +212,19 @@ def _twin_sched(archive, entry, n, sol_dim):
     return Scheduler(archive, em) if entry == "sched_tell" else BanditScheduler(archive, em, num_active=1)
 
 
-def inject(archive, fault, dt, sol_dim, nd, layout, sched=None):
+def inject(archive, fault, dt, sol_dim, nd, layout, sched=None, mdt=None):
     """Perform the malformed call. Returns ('raised', exc_name) | ('accepted', None) | ('skip', why)."""
     entry = fault["entry"]
     single = entry in ("add_single", "retrieve_single", "index_of_single")
     sol, obj, meas, extras = build_args(None, fault, dt, sol_dim, nd, layout)
-    out = corrupt(fault, sol, obj, meas, extras, layout, single, dt)
+    out = corrupt(fault, sol, obj, meas, extras, layout, single, dt, mdt)
     if out is None:
         return "skip", "fault not applicable to this layout / dtype"
     sol, obj, meas, extras = out
     if fault["kind"] in DRY_RUN_KINDS and not fault.get("_dry"):
         import copy
         twin = copy.deepcopy(archive)
-        res, exc = inject(twin, dict(fault, _dry=True), dt, sol_dim, nd, layout,
+        res, exc = inject(twin, dict(fault, _dry=True), dt, sol_dim, nd, layout, mdt=mdt,
                           sched=(lambda entry, n: _twin_sched(twin, entry, n, sol_dim)) if sched else None)
         if res != "raised":
             return "skip", "NumPy broadcasting makes this call valid in this state"
